@@ -30,6 +30,15 @@ def main(path):
             for p, t, i in v.problems:
                 print("oracle:", p, t, "at event", i)
         return 0
+    if kind == "SSACK":
+        import subprocess
+        cf, of = os.path.join(wd, "ssack.cases"), os.path.join(wd, "ssack.out")
+        open(cf, "w").write(case + "\n")
+        subprocess.run([C.harness_bin(), "ssack", cf, of], env=C.ENV, timeout=600)
+        k = case.split()[2]
+        print("implementation:", open(of).read().strip())
+        print("expected      : ssack got=%s ok=%s (every flush acknowledged exactly once)" % (k, k))
+        return 0
     if kind == "lock":
         print("re-run:", d.get("cmd"))
         return 0
